@@ -22,19 +22,23 @@ Definition del_ops : list fop := [FPia 1 101 1; FPia 2 102 1; FGet 1 1; FDel 1 1
 Definition famA : list cfg :=
   flat_map (fun o1 => map (fun o2 => (wit_nodes2, [follow o1; follow o2])) del_ops) del_ops.
 (* B: three tasks, one operation each (as multisets: the tasks are interchangeable); list 1 *)
-Definition tri_ops : list fop := [FPia 1 101 1; FDel 1 1; FPia 2 102 1; FGet 1 1].
+Definition tri_ops : list fop := [FPia 1 101 1; FDel 1 1; FGet 1 1].
 Definition famB : list cfg :=
   flat_map (fun l1 => match l1 with [] => [] | o1 :: _ =>
     flat_map (fun l2 => match l2 with [] => [] | o2 :: _ =>
       map (fun o3 => (wit_nodes1, [[o1]; [o2]; [o3]])) l2 end) (tails l1) end) (tails tri_ops).
 (* C: delete followed by an insert (the shape in which a node is unlinked and a node is allocated) against another task *)
-Definition famC : list cfg :=
+Definition famC_of (l0 : list (list fop)) : list cfg :=
   flat_map (fun p0 => map (fun p1 => (wit_nodes2, [p0; p1]))
-                          [[FPia 2 115 1; FGet 2 1]; [FPia 1 116 1; FGet 1 1]; [FDel 1 1; FGet 1 1]; [FDel 3 1; FPia 3 117 1]])
-           [[FDel 1 1; FPia 1 106 1]; [FDel 1 1; FPia 3 120 1]; [FDel 3 1; FPia 3 121 1]; [FPia 2 102 1; FDel 2 1]].
+                          [[FPia 2 115 1; FGet 2 1]; [FPia 1 116 1; FGet 1 1]; [FDel 1 1; FGet 1 1]; [FDel 3 1; FPia 3 117 1]]) l0.
+Definition famC1 : list cfg := famC_of [[FDel 1 1; FPia 1 106 1]; [FDel 1 1; FPia 3 120 1]].
+Definition famC2 : list cfg := famC_of [[FDel 3 1; FPia 3 121 1]].
+Definition famC3 : list cfg :=
+  map (fun p1 => (wit_nodes2, [[FPia 2 102 1; FDel 2 1]; p1])) [[FPia 2 115 1; FGet 2 1]; [FPia 1 116 1; FGet 1 1]; [FDel 1 1; FGet 1 1]].
+Definition famC : list cfg := famC1 ++ famC2 ++ famC3.
 (* the configurations of the witnesses 2 and 3 *)
 Definition famW : list cfg := [(wit_nodes0, wit_del_progs); (wit_nodes2, wit_rec_progs)].
-Definition patch_family_sp : list cfg := famW ++ famA ++ famC ++ famB.
+Definition patch_family_sp : list cfg := (famW ++ famA) ++ famC1 ++ famC2 ++ famC3 ++ famB.
 
 (* single machine steps: two tasks, one operation each, short lists *)
 Definition patch_family_steps : list cfg :=
@@ -44,9 +48,36 @@ Definition patch_family_steps : list cfg :=
 
 (* ---- the code as it is, without delete and without a replacing put: put_if_absent / get, and put on a key that is absent
    and that no other task puts ---- *)
-Definition ins_ops : list fop := [FPia 1 101 1; FPia 2 102 1; FPia 2 112 1; FGet 2 1; FPut 4 104 1].
-Definition famI : list cfg :=
+Definition ins_ops : list fop := [FPia 1 101 1; FPia 2 102 1; FGet 2 1; FPut 4 104 1].
+Definition famI1 : list cfg :=
   flat_map (fun l1 => match l1 with [] => [] | o1 :: _ =>
     flat_map (fun l2 => match l2 with [] => [] | o2 :: _ =>
-      map (fun o3 => (wit_nodes1, [[o1]; [o2]; [o3]])) l2 end) (tails l1) end) (tails ins_ops)
-  ++ flat_map (fun o1 => map (fun o2 => (wit_nodes2, [follow o1; follow o2])) ins_ops) ins_ops.
+      map (fun o3 => (wit_nodes1, [[o1]; [o2]; [o3]])) l2 end) (tails l1) end) (tails ins_ops).
+Definition famI2 : list cfg :=
+  flat_map (fun o1 => map (fun o2 => (wit_nodes2, [follow o1; follow o2])) ins_ops) [FPia 1 101 1; FPut 4 104 1].
+Definition famI : list cfg := famI1 ++ famI2.
+
+(* ---- lifting a computed family result to the statement about every schedule ---- *)
+Lemma family_sp_lift pol fam :
+  forallb (cfg_ok_sp pol) fam = true ->
+  forall c, In c fam -> forall g,
+    let s := frun_grants pol wit_sof N.eqb (cfg_init c) g in
+    fdone s = true -> lin (amap_of (fst c)) (hist_of s).
+Proof.
+  intros H c Hc g. cbv zeta. intros Hd. rewrite forallb_forall in H. specialize (H c Hc). unfold cfg_ok_sp in H.
+  apply linb_iff. exact (explore_sp_sound pol wit_sof N.eqb (chk_lin (fst c)) g 200 (cfg_init c) H Hd).
+Qed.
+Lemma family_steps_lift pol fam :
+  forallb (cfg_ok_steps pol) fam = true ->
+  forall c, In c fam -> forall sched,
+    let s := frun pol wit_sof N.eqb (cfg_init c) sched in
+    fdone s = true -> lin (amap_of (fst c)) (hist_of s).
+Proof.
+  intros H c Hc sched. cbv zeta. intros Hd. rewrite forallb_forall in H. specialize (H c Hc). unfold cfg_ok_steps in H.
+  apply linb_iff. exact (explore_sound pol wit_sof N.eqb (chk_lin (fst c)) sched 400 (cfg_init c) H Hd).
+Qed.
+
+Lemma famWA_ok : forallb (cfg_ok_sp pol_patch) (famW ++ famA) = true.
+Proof. vm_compute. reflexivity. Qed.
+Lemma fam_steps_ok : forallb (cfg_ok_steps pol_patch) patch_family_steps = true.
+Proof. vm_compute. reflexivity. Qed.
